@@ -352,6 +352,97 @@ func c12Families(tier string) []explore.Family {
 		`{% include "` + c12IncName + `" %}`,
 	}
 	binds := []map[string]any{{}, {"x": 1, "y": 1}, {"x": nil, "y": "s"}, {"x": false, "y": []any{1, 2}}}
+	// capture binds TEXT: a variable captured from literal text F is indistinguishable, in every position a value can
+	// stand in, from a variable assigned the string F
+	capTexts := []string{"abc", "1", "12", "", " x ", "é", "a,b", "true", "nil", "1.5"}
+	capUses := []string{"{{ v }}", "{{ v | size }}", "{% if v == LIT %}E{% else %}N{% endif %}", "{% if v contains 'b' %}C{% endif %}", "{% case v %}{% when LIT %}W{% else %}O{% endcase %}",
+		"{% for c in v %}[{{ c }}]{% endfor %}", "{{ v | first }}|{{ v | last }}", "{{ v | json }}", "{{ v | plus: 1 }}", "{{ v | append: 'z' | upcase }}", "{{ v | split: ',' | size }}", "{% if v %}T{% endif %}{% if v == empty_name %}M{% endif %}",
+		"{{ m[v] }}", "{% assign w = v %}{{ w | size }}{% if w == v %}S{% endif %}", "{{ v | reverse }}", "{{ v | sort }}", "{% if v < 'b' %}L{% endif %}", "{{ v | slice: 0 }}", "{{ v | default: 'd' }}", "{% tablerow c in v %}{{ c }}{% endtablerow %}"}
+	fams = append(fams, explore.Family{Name: "capture-binds-text", Count: int64(len(capTexts) * len(capUses)), Run: func(i int64, r *explore.Rec) {
+		txt, use := capTexts[int(i)%len(capTexts)], capUses[int(i)/len(capTexts)]
+		lit := "'" + txt + "'"
+		use = strings.ReplaceAll(use, "LIT", lit)
+		srcC := "{% capture v %}" + txt + "{% endcapture %}" + use
+		srcA := "{% assign v = " + lit + " %}" + use
+		bind := func() map[string]any { return map[string]any{"m": map[string]any{txt: "hit"}} }
+		r.Eval()
+		r.Eval()
+		r.Transition()
+		r.Trace()
+		oc, oa := Render(c12.eng, srcC, bind()), Render(c12.eng, srcA, bind())
+		r.Class("capture-binds-text/" + oa.Class())
+		if oc.Sig() != oa.Sig() {
+			r.Violation("capture-is-not-text", map[string]any{"captured": srcC, "assigned": srcA}, oa.String(), oc.String())
+		}
+	}})
+
+	// what an include does to the includer's variables does not depend on HOW the included file ends: a file that
+	// assigns and then runs into break/continue (caught by the includer's loop) is like one that just assigns
+	endings := []string{"", "{% break %}", "{% continue %}", "{% if true %}{% break %}{% endif %}", "{% for q in (1..2) %}{% break %}{% endfor %}"}
+	incBodies := []string{"{% assign x = 'inc' %}{% assign fresh = 'F' %}", "{% capture x %}cap{% endcapture %}", "{% for x in (7..8) %}{% endfor %}{% assign y = x %}", "{% assign i = 99 %}"}
+	fams = append(fams, explore.Family{Name: "include-effects-whatever-its-ending", Count: int64(len(endings) * len(incBodies) * 2), Run: func(i int64, r *explore.Rec) {
+		rx := radix{i}
+		pre, body, end := rx.next(2) == 1, incBodies[rx.next(len(incBodies))], endings[rx.next(len(endings))]
+		name := fmt.Sprintf("c12_end_%d.liquid", i)
+		plain := fmt.Sprintf("c12_end_%d_plain.liquid", i)
+		for n, src := range map[string]string{name: body + end + "AFTER", plain: body} {
+			if _, err := c12.eng.ParseTemplateAndCache([]byte(src), n, 1); err != nil {
+				panic(explore.BaselineFailure{Msg: "harness: " + err.Error()})
+			}
+		}
+		main := func(file string) string {
+			return "{% assign x = 'outer' %}{% for i in (1..2) %}{% include \"" + file + "\" %}<{{ x }}|{{ y }}|{{ i }}|{{ fresh }}>{% endfor %}<{{ x }}|{{ y }}|{{ i }}|{{ fresh }}>"
+		}
+		bind := map[string]any{}
+		if pre {
+			bind["x"], bind["y"] = "X0", "Y0"
+		}
+		r.Eval()
+		r.Eval()
+		r.Transition()
+		r.Trace()
+		oe, op := Render(c12.eng, main(name), bind), Render(c12.eng, main(plain), bind)
+		// the variable values seen by the includer: everything between < and > (what the included file itself prints is ignored)
+		vars := func(o Outcome) string {
+			return strings.Join(regexp.MustCompile(`<[^<>]*>`).FindAllString(o.Out, -1), "")
+		}
+		r.Class("include-ending")
+		if oe.Panic != nil || oe.Err != nil || op.Err != nil {
+			r.Violation("include-ending:fails", map[string]any{"included_file": body + end + "AFTER"}, "output", oe.String()+" / "+op.String())
+			return
+		}
+		// with break the loop ends after the first iteration; compare the first iteration's probe and, for continue, both
+		first := func(s string) string {
+			if k := strings.Index(s, ">"); k >= 0 {
+				return s[:k+1]
+			}
+			return s
+		}
+		if strings.Contains(end, "break") && !strings.Contains(end, "for q") {
+			// the probe inside the loop is skipped by the break: only the probe after the loop is left; it must equal the
+			// plain file's probe after ITS first iteration as far as x, y and fresh go
+			ve, vp := vars(oe), vars(op)
+			strip := func(p string) string {
+				parts := strings.Split(strings.Trim(p, "<>"), "|")
+				return parts[0] + "|" + parts[1] + "|" + parts[3]
+			}
+			if ve == "" || strip(ve) != strip(first(vp)) {
+				r.Violation("include-ending:variables-differ", map[string]any{"included_file": body + end, "plain_file": body}, "x, y, fresh as after the plain file: "+first(vp), ve)
+			}
+			return
+		}
+		if strings.Contains(end, "continue") {
+			ve, vp := vars(oe), vars(op)
+			if !strings.HasSuffix(vp, ve) {
+				r.Violation("include-ending:variables-differ", map[string]any{"included_file": body + end, "plain_file": body}, "the probe after the loop as with the plain file: "+vp, ve)
+			}
+			return
+		}
+		if vars(oe) != vars(op) {
+			r.Violation("include-ending:variables-differ", map[string]any{"included_file": body + end, "plain_file": body}, vars(op), vars(oe))
+		}
+	}})
+
 	fams = append(fams, explore.Family{Name: "capture-equivalence-fragments", Count: int64(len(frags) * len(frags) * len(binds)), Run: func(i int64, r *explore.Rec) {
 		rx := radix{i}
 		b, f2, f1 := binds[rx.next(len(binds))], frags[rx.next(len(frags))], frags[rx.next(len(frags))]
